@@ -1124,7 +1124,13 @@ class CPreProcessor:
                 value = int(bool(value))
             else:
                 func = self.OP_MAP[expr.op][2]
-                value = func(self._eval_tree(expr.a), self._eval_tree(expr.b))
+                lhs = self._eval_tree(expr.a)
+                rhs = self._eval_tree(expr.b)
+                if expr.op in ("/", "%") and rhs == 0:
+                    self.error("Division by zero in #if", loc=expr.location)
+                if expr.op in ("<<", ">>") and rhs < 0:
+                    self.error("Negative shift count in #if", loc=expr.location)
+                value = func(lhs, rhs)
         elif isinstance(expr, expressions.TernaryOperator):
             value = self._eval_tree(expr.a)
             if value:
